@@ -101,7 +101,8 @@ func init() {
 		rule("R6-object-provenance", ruleObjProvenance("Promise", "Promise.patch")).
 		rule("R16-name-agreement", ruleNameAgreement).
 		rule("R6-cas", ruleCAS("ReadPromise", "CreatePromise", "CreatePromiseAndTask", "CompletePromise", "SearchPromises", "CreateCallback", "CreateSubscription")).
-		rule("R16-converter-complete", ruleConverterCompleteness)
+		rule("R16-converter-complete", ruleConverterCompleteness).
+		rule("M-DISPATCH", ruleDispatch)
 
 	regProp("C02",
 		[]string{
@@ -114,7 +115,8 @@ func init() {
 		rule("R14-coroutine-confinement", ruleCoroutineConfinement).
 		rule("R1R2-sql-spec", ruleSQLSpec(allKinds)).
 		rule("R9-command-provenance", ruleCmdProvenance(allCmdTypes...)).
-		rule("R6-response-shapes", ruleRespProvenance(allRespTypes...))
+		rule("R6-response-shapes", ruleRespProvenance(allRespTypes...)).
+		rule("M-DISPATCH", ruleDispatch)
 
 	regProp("C04",
 		[]string{
@@ -248,7 +250,9 @@ func init() {
 		rule("R6-cas", ruleCAS("SearchPromises")).
 		rule("R6-response-shapes", ruleRespProvenance("SearchPromisesResponse", "SearchSchedulesResponse")).
 		rule("R9-cursor-carry", ruleCursorCarry).
-		rule("R13-definitions", ruleSmallDefinitions)
+		rule("R13-definitions", ruleSmallDefinitions).
+		rule("R13-outcome-maps", ruleOutcomeMaps).
+		rule("R16-swapped-arguments", ruleSwappedArguments)
 }
 
 func init() {
@@ -271,7 +275,9 @@ func init() {
 		rule("R7-decision-tables", ruleTables(tblReadSchedule, tblHeartbeatLocks, tblHeartbeatTasks, tblSearchSchedules, tblAcquire, tblRelease, tblDeleteSchedule)).
 		rule("R16-converter-complete", ruleConverterCompleteness).
 		rule("R16-zero-value-locals", ruleZeroValueLocals).
-		rule("R13-definitions", ruleSmallDefinitions)
+		rule("R13-definitions", ruleSmallDefinitions).
+		rule("R13-outcome-maps", ruleOutcomeMaps).
+		rule("R16-swapped-arguments", ruleSwappedArguments)
 }
 
 func init() {
@@ -290,7 +296,8 @@ func init() {
 		rule("R5-creation-group", ruleCreationGroup).
 		rule("R9-command-provenance", ruleCmdProvenance("UpdatePromiseCommand", "CreatePromiseCommand", "CreateTaskCommand", "ReadPromiseCommand")).
 		rule("R6-cas", ruleCAS("CreatePromise", "CreatePromiseAndTask", "CompletePromise")).
-		rule("R6-response-shapes", ruleRespProvenance("CreatePromiseResponse", "CreatePromiseAndTaskResponse", "CompletePromiseResponse"))
+		rule("R6-response-shapes", ruleRespProvenance("CreatePromiseResponse", "CreatePromiseAndTaskResponse", "CompletePromiseResponse")).
+		rule("R13-outcome-maps", ruleOutcomeMaps)
 }
 
 func init() {
@@ -407,7 +414,8 @@ func init() {
 		rule("R7-poll-lookup", rulePollLookup).
 		rule("R7-poll-replace", rulePollReplace).
 		rule("R10-poll-done", func(c *Ctx) { n := 0; c.pollDoneOnce(&n) }).
-		rule("R12-decode-nil", ruleDecodeNil)
+		rule("R12-decode-nil", ruleDecodeNil).
+		rule("R16-swapped-arguments", ruleSwappedArguments)
 
 	regProp("C19",
 		[]string{
@@ -427,7 +435,8 @@ func init() {
 		rule("R10-exactly-once", ruleExactlyOnce).
 		rule("R10-cqe-well-formed", ruleCQEWellFormed).
 		rule("R7-http-plugin-outcome", ruleHttpPluginOutcome).
-		rule("R7-sender-process", ruleTables(tblSenderProcess))
+		rule("R7-sender-process", ruleTables(tblSenderProcess)).
+		rule("R16-swapped-arguments", ruleSwappedArguments)
 }
 
 func init() {
@@ -448,5 +457,6 @@ func init() {
 		rule("R9-command-provenance", ruleCmdProvenance("CreatePromiseCommand", "UpdatePromiseCommand", "CreateScheduleCommand", "CreateCallbackCommand", "CreateTaskCommand")).
 		rule("R6-object-provenance", ruleObjProvenance(objAll...)).
 		rule("R16-converter-complete", ruleConverterCompleteness).
-		rule("R16-zero-value-locals", ruleZeroValueLocals)
+		rule("R16-zero-value-locals", ruleZeroValueLocals).
+		rule("R16-swapped-arguments", ruleSwappedArguments)
 }
